@@ -52,6 +52,7 @@ type report struct {
 	Edits     map[string]int `json:"edits"`
 	Unmanaged []string       `json:"unmanaged"`
 	Files     []string       `json:"files"`
+	EnvVars   []string       `json:"env_vars"` // names the library reads with os.Getenv / os.LookupEnv (configuration seams)
 }
 
 var (
@@ -196,6 +197,7 @@ func unmanaged(pos token.Pos, what string) {
 func rewriteFile(fs *fileState) {
 	usesLeft := map[string]int{} // package path -> selector uses that were NOT rewritten
 	needSimrt := false
+	atomicStmt := map[*ast.CallExpr]bool{}
 	labeled := map[ast.Stmt]bool{}
 	ast.Inspect(fs.file, func(n ast.Node) bool {
 		if l, ok := n.(*ast.LabeledStmt); ok {
@@ -305,7 +307,36 @@ func rewriteFile(fs *fileState) {
 				rep.Edits["R6 receive"]++
 				needSimrt = true
 			}
+		case *ast.ExprStmt:
+			// an atomic operation used as a statement: a scheduling point right after it
+			if call, ok := x.X.(*ast.CallExpr); ok {
+				if path, _, isPkg := pkgOf(call.Fun); isPkg && path == "sync/atomic" {
+					atomicStmt[call] = true
+					e := fs.off(x.End())
+					fs.add(e, e, false, func() string { return "; simrt.Yield()" })
+					rep.Edits["R12 atomic gate"]++
+					needSimrt = true
+				}
+			}
 		case *ast.CallExpr:
+			if path, name, isPkg := pkgOf(x.Fun); isPkg {
+				if path == "sync/atomic" && !atomicStmt[x] {
+					// an atomic operation inside an expression: evaluate it, then pass a scheduling point (lock-free
+					// algorithms go wrong between two atomic operations, which the race detector cannot see)
+					call := x
+					var self *edit
+					self = fs.add(fs.off(call.Pos()), fs.off(call.End()), true, func() string {
+						return "simrt.AG(" + fs.render(fs.off(call.Pos()), fs.off(call.End()), self) + ")"
+					})
+					rep.Edits["R12 atomic gate"]++
+					needSimrt = true
+				}
+				if path == "os" && (name == "Getenv" || name == "LookupEnv") && len(x.Args) == 1 {
+					if tv, ok := info.Types[x.Args[0]]; ok && tv.Value != nil {
+						rep.EnvVars = append(rep.EnvVars, strings.Trim(tv.Value.ExactString(), "\""))
+					}
+				}
+			}
 			if id, ok := x.Fun.(*ast.Ident); ok && len(x.Args) >= 1 {
 				if _, isBuiltin := info.Uses[id].(*types.Builtin); isBuiltin {
 					call := x
